@@ -37,9 +37,9 @@ func init() {
 	Register(&Prop{
 		ID:    "C03",
 		Title: "GROUP BY partitions rows; aggregates cover exactly their group and honour WHERE",
-		Rule: "rapid draws a table with 1-3 low-cardinality grouping columns (string / number / NULL or missing keys) and 2-3 numeric value " +
+		Rule: "rapid draws a table with 1-3 low-cardinality grouping columns (strings incl. several spellings of one number and blanks / numbers, also as native Go types and as int64 / uint64 beyond 2^53 / NULL or missing keys) and 2-3 numeric value " +
 			"columns (some nullable), 0-10 rows, and a query of shape group (GROUP BY with keys, 1-5 aggregates incl. the same function on " +
-			"different columns, optional *, WHERE, HAVING), whole (all-aggregate list without GROUP BY, with/without WHERE, incl. empty input) or " +
+			"different columns, optional *, WHERE, HAVING with aggregates under comparisons, [NOT] BETWEEN, IS [NOT] NULL, [NOT] IN, unary minus and arithmetic), whole (all-aggregate list without GROUP BY, with/without WHERE, incl. empty input) or " +
 			"groupagg (all-aggregate list with GROUP BY), a quarter of them with a trailing LIMIT n >= 1 (which only trims the output sequence); oracle = reference grouping in first-appearance order (sequence equality), three " +
 			"executions must agree, conservation law sum(COUNT(*)) = |rows passing WHERE|, groups pairwise distinct. Non-trivial: >=2 groups " +
 			"with one of size >=2, or whole-table with WHERE rejecting >=1 row, or two calls of one aggregate function.",
